@@ -101,6 +101,10 @@ var plans = map[string]Plan{
 		Rule: "one evaluation = one simulated UCI session in which each command line is passed through intact or damaged in flight (truncate/drop/duplicate/swap tokens, numeric extremes, junk tokens, whitespace and control bytes, blank and over-long lines, corrupted FEN payloads, unreadable moves), followed by isready probes and a valid recovery position/go; plus direct FEN parsing of every generated payload. distinct = distinct (interleaving signature); non-trivial = at least one damaged line was delivered",
 		Real: realEngine, Stub: stubEnv,
 		Assume: []string{"after a position command that is valid up to an illegal move either the previous position or start + legal prefix is accepted", "Hash values that would allocate gigabytes are not generated (sandbox has no memory limit)"}},
+	"C11": {Level: "exploration", Runs: [2]int{4000, 400000}, RaceRuns: [2]int{200, 4000}, Batch: 250, DesignRef: "5/C11",
+		Rule: "one evaluation = one seeded operation history (10-200 Put/Probe/GetEntry/AgeEntries/Clear/Resize operations, keys built to collide in the index bits at every capacity, values over the whole storable range incl. mate scores, MoveNone, depths with ties) executed by two actor goroutines against the real table (real ageing workers) and checked operation by operation against a reference store; distinct = distinct hashes of the abstract model state sequence; non-trivial = at least one index collision between different keys occurred",
+		Real: []string{"transpositiontable.TtTable (Put, Probe, GetEntry, AgeEntries with its 32 worker goroutines, Clear, Resize, Len, Hashfull, String)"}, Stub: []string{"search and controller (harness actor goroutines, hand-over like the engine's lifecycle lock)"},
+		Assume: []string{"key 0 (the table's own empty-slot marker) and size 0 are not generated", "equal-depth replacement after ageing and probing: either outcome accepted (the statement does not say how probes interact with ageing)"}},
 	"C07": {Level: "exploration", Runs: [2]int{1200, 30000}, Batch: 50, DesignRef: "5/C07",
 		Rule: "one evaluation = one simulated session with the terminal-node monitor on; distinct = distinct (interleaving signature); non-trivial = at least one mate/stalemate classification was checked against the rules model",
 		Real: realEngine, Stub: stubEnv,
